@@ -96,6 +96,10 @@ def _time_layout(fields, top):
 for kind, payload in SPEC["args"]:
     if kind == "rm":
         info = W.pattern_info(payload)
+        if SPEC.get("prescap") and len(info["pres"]) > SPEC["prescap"]:
+            info = dict(info)
+            step = -(-len(info["pres"]) // SPEC["prescap"])
+            info["pres"] = info["pres"][::step]         # quick tier: every step-th presence pattern
         if TEXTCAP:
             info = dict(info)
             info["texts"] = {g: (t if len(t) <= TEXTCAP else t[:TEXTCAP - 2] + t[-2:]) for g, t in info["texts"].items()}
@@ -117,7 +121,18 @@ for kind, payload in SPEC["args"]:
         else:
             LAYOUT.append({"k": "D", "v": _alloc([[0, MAXDUR]]),
                            "u": _alloc([[u, u] for u in SPEC["units"]] if SPEC.get("units") else [[0, len(UNITS) - 1]])})
-TS_SLOTS = [_alloc([[1, MDC]]), _alloc([[0, 23]]), _alloc([[0, 59]]), _alloc([[0, 59]])]
+# reference time: first or last day of the cell month (concrete on each path), any time of day
+TS_DAYS = [1, MDC]
+TS_SLOTS = [_alloc([[0, len(TS_DAYS) - 1]]), _alloc([[0, 23]]), _alloc([[0, 59]]), _alloc([[0, 59]])]
+
+
+def _ts(p):
+    di = p[TS_SLOTS[0]]
+    d = TS_DAYS[0]
+    for k in range(len(TS_DAYS)):
+        if di == k:
+            d = TS_DAYS[k]
+    return datetime(CELL_Y, CELL_M, d, p[TS_SLOTS[1]], p[TS_SLOTS[2]], p[TS_SLOTS[3]])
 NP = len(RANGES)
 assert NP <= NPARAM, "too many parameters: %d" % NP
 
@@ -250,7 +265,7 @@ def pre_ok(p) -> bool:
 def run_step(p):
     """-> (ok, why) ; why names the failing clause"""
     args = build_args(p)
-    ts = datetime(CELL_Y, CELL_M, p[TS_SLOTS[0]], p[TS_SLOTS[1]], p[TS_SLOTS[2]], p[TS_SLOTS[3]])
+    ts = _ts(p)
     before = [snap(a) for a in args] if "frame" in CLAUSES else None
     try:
         r = WRAPPER(ts, *args)
@@ -306,5 +321,4 @@ def why_step(*p):
 
 def lift_step(*p):
     from vq.harness import lift
-    return lift.lift_step(SPEC, p, build_args(p), run_step(p)[1],
-                          datetime(CELL_Y, CELL_M, p[TS_SLOTS[0]], p[TS_SLOTS[1]], p[TS_SLOTS[2]], p[TS_SLOTS[3]]))
+    return lift.lift_step(SPEC, p, build_args(p), run_step(p)[1], _ts(p))
